@@ -79,6 +79,27 @@ def parseValField (s : String) : Option Value :=
 
 def listField (s : String) : List String := if s == "-" then [] else s.splitOn ","
 
+mutual
+def showIMatch : IMatch → String
+  | .mk d r a => s!"M({d},{r},[{showIArgs a}])"
+def showIArgs : List IArg → String
+  | [] => ""
+  | x :: xs => showIArg x ++ ";" ++ showIArgs xs
+def showIArg : IArg → String
+  | .expr e s t x => s!"E({reprStr e},{s},{t},{String.ofList x})"
+  | .nested m s t x => s!"N({showIMatch m},{s},{t},{String.ofList x})"
+end
+
+/-- a printed form of everything the front end returns (two results are equal iff their prints are) -/
+def frontFp (x : Static × List AstNode × Defs) : String :=
+  let (st, nodes, d) := x
+  let ins := d.instrs.map fun i =>
+    s!"I([{";".intercalate (i.cands.map fun c => s!"{showIMatch c.m}/{c.known}/{c.size}")}],{i.known},{reprStr i.encoding},{i.resolved})"
+  "|".intercalate [reprStr nodes, reprStr d.symbols, reprStr d.banks, reprStr d.ruledefs, reprStr d.fns, toString ins,
+    reprStr d.datas, reprStr d.res, reprStr d.aligns, reprStr d.addrs, reprStr st.decls.banks, reprStr st.decls.ruledefs,
+    reprStr st.decls.symbols, String.ofList st.rootFile, reprStr st.files,
+    s!"{st.opts.maxIter}/{st.opts.optStatic}/{st.opts.optMatcher}/{reprStr st.opts.defines}"]
+
 def parseAsmFields (fields : List String) : Option (Opts × SrcFiles × List (List Char)) :=
   match fields with
   | maxIter :: optS :: optM :: defsField :: nroots :: _nfiles :: rest =>
@@ -345,6 +366,24 @@ def step (line : String) : String :=
       match matcherDiff opts files roots with
       | .ok (n, g) => s!"mdiff {n} {g}"
       | .error m => s!"err {m.headD "?"}"
+    | none => "bad-op"
+  | "frel" :: "asm" :: fields =>
+    -- the hypotheses of `assemble_switch_success`, evaluated on this input: the relation of the two front ends
+    -- (`FrontRel`, compared through a printed form of everything they return) and `frontOKSb`
+    match parseAsmFields fields with
+    | some (opts0, files, roots) =>
+      let opts : Opts := { opts0 with optStatic := true }
+      let on := frontEnd opts files roots
+      let off := frontEnd opts.staticOff files roots
+      match on, off with
+      | .error e, .error e' => if e == e' then "frel same-error" else s!"frel DIFFERENT errors {e.headD "?"} / {e'.headD "?"}"
+      | .ok (st, nodes, d0), .ok y =>
+        let want := (st.withStatic false, nodes, d0.unfS (markedByBoth st d0))
+        let rel := frontFp want == frontFp y
+        let oks := frontOKSb st nodes d0
+        if rel && oks then "frel related oks" else s!"frel FAILS related={rel} oks={oks}"
+      | .ok _, .error e => s!"frel DIFFERENT ok / {e.headD "?"}"
+      | .error e, .ok _ => s!"frel DIFFERENT {e.headD "?"} / ok"
     | none => "bad-op"
   | "cert" :: sy :: ins :: dat :: res :: ali :: adr :: "asm" :: fields =>
     match parseAsmFields fields with
